@@ -15,7 +15,8 @@ Record lobs := {
   o_event : list (N * N);         (* Event.notify: event type -> number of queues *)
   o_bus : list (N * N);           (* hass.bus: script event type -> number of listeners *)
   o_tasks : N;                    (* live trigger tasks (trigger_watch / _cycle) *)
-  o_svc : list N;                 (* generations whose service is registered in hass.services *)
+  o_svc : list (N * N);           (* Function.service_cnt: service name -> count ; zero rows omitted *)
+  o_reg : list N;                 (* service names registered in hass.services *)
   o_runs : list (N * N);          (* (generation, kind code) of every run since the previous snapshot *)
   o_extra_ok : bool               (* non-modelled residue is clean (integration listeners/tasks after unload, task tables) *)
 }.
@@ -25,7 +26,7 @@ Record lstep := {
   st_final : bool;                (* this step unloaded everything *)
   st_obs : lobs
 }.
-Record lcase := { lc_ents : list N; lc_evs : list N; lc_steps : list lstep }.
+Record lcase := { lc_ents : list N; lc_evs : list N; lc_svcs : list N; lc_steps : list lstep }.
 
 Definition count_p {A} (f : A -> bool) (l : list A) : N := N.of_nat (length (filter f l)).
 
@@ -45,31 +46,35 @@ Definition count_eq {A} (eqb : A -> A -> bool) (a b : list A) : bool :=
   Nat.eqb (length a) (length b) &&
   forallb (fun x => Nat.eqb (length (filter (eqb x) a)) (length (filter (eqb x) b))) a.
 
-Definition obs_matches (ents evs : list N) (W : world) (logged : nat) (o : lobs) : bool :=
+Definition proj_svc (svcs : list N) (W : world) : list (N * N) :=
+  filter (fun r => negb (N.eqb (snd r) 0)) (map (fun n => (n, N.of_nat (svc_count W n))) svcs).
+
+Definition obs_matches (ents evs svcs : list N) (W : world) (logged : nat) (o : lobs) : bool :=
   let L := w_led W in
   list_eqb n3_eqb (proj_state ents L) (o_state o) &&
   list_eqb n2_eqb (proj_count evs (l_event L)) (o_event o) &&
   list_eqb n2_eqb (proj_count evs (l_bus L)) (o_bus o) &&
   N.eqb (N.of_nat (length (l_tasks L))) (o_tasks o) &&
-  count_eq N.eqb (l_svc L) (o_svc o) &&
+  list_eqb n2_eqb (proj_svc svcs W) (o_svc o) &&
+  list_eqb N.eqb (map fst (proj_svc svcs W)) (o_reg o) &&
   count_eq n2_eqb (proj_runs (skipn logged (w_log W))) (o_runs o).
 
-Fixpoint steps_ok (cfg : deviations) (ents evs : list N) (W : world) (sts : list lstep) : bool :=
+Fixpoint steps_ok (cfg : deviations) (ents evs svcs : list N) (W : world) (sts : list lstep) : bool :=
   match sts with
   | [] => true
   | s :: r =>
       let W' := run_ops cfg (st_ops s) W in
-      obs_matches ents evs W' (length (w_log W)) (st_obs s) && steps_ok cfg ents evs W' r
+      obs_matches ents evs svcs W' (length (w_log W)) (st_obs s) && steps_ok cfg ents evs svcs W' r
   end.
 
 Definition lcase_model_ok (cfg : deviations) (c : lcase) : bool :=
-  steps_ok cfg (lc_ents c) (lc_evs c) world0 (lc_steps c).
+  steps_ok cfg (lc_ents c) (lc_evs c) (lc_svcs c) world0 (lc_steps c).
 
 (* ---- direct clauses of the property on the observations --------------------------------------- *)
 Definition step_runs_alive (s : lstep) : bool :=
   forallb (fun r => memn (fst r) (st_alive s)) (o_runs (st_obs s)).
 Definition obs_empty (o : lobs) : bool :=
-  match o_state o, o_event o, o_bus o, o_svc o with [], [], [], [] => N.eqb (o_tasks o) 0 | _, _, _, _ => false end.
+  match o_state o, o_event o, o_bus o, o_svc o, o_reg o with [], [], [], [], [] => N.eqb (o_tasks o) 0 | _, _, _, _, _ => false end.
 Definition step_final_clean (s : lstep) : bool := if st_final s then obs_empty (st_obs s) else true.
 Definition all_runs (c : lcase) : list (N * N) := flat_map (fun s => o_runs (st_obs s)) (lc_steps c).
 Definition final_world (c : lcase) : world := fold_left (fun W s => run_ops cfg_off (st_ops s) W) (lc_steps c) world0.
@@ -83,34 +88,35 @@ Definition once_ok (c : lcase) : bool :=
 Definition lcase_spec_ok (c : lcase) : bool :=
   forallb (fun s => step_runs_alive s && step_final_clean s && o_extra_ok (st_obs s)) (lc_steps c) &&
   once_ok c &&
-  steps_ok cfg_off (lc_ents c) (lc_evs c) world0 (lc_steps c).
+  steps_ok cfg_off (lc_ents c) (lc_evs c) (lc_svcs c) world0 (lc_steps c).
 
 (* ---- attribution of a Spec failure to deviation switches -------------------------------------- *)
 Definition without (k : nat) (cfg : deviations) : deviations :=
   {| d16_notify_del_return := if Nat.eqb k 16 then false else d16_notify_del_return cfg;
      d90_dropped_dm_started := if Nat.eqb k 90 then false else d90_dropped_dm_started cfg;
-     d91_pending_subscribes := if Nat.eqb k 91 then false else d91_pending_subscribes cfg |}.
+     d91_pending_subscribes := if Nat.eqb k 91 then false else d91_pending_subscribes cfg;
+     d21_handler_stays := if Nat.eqb k 21 then false else d21_handler_stays cfg |}.
 Definition switch_on (k : nat) (cfg : deviations) : bool :=
   if Nat.eqb k 16 then d16_notify_del_return cfg else if Nat.eqb k 90 then d90_dropped_dm_started cfg
-  else if Nat.eqb k 91 then d91_pending_subscribes cfg else false.
+  else if Nat.eqb k 91 then d91_pending_subscribes cfg else if Nat.eqb k 21 then d21_handler_stays cfg else false.
 (* A failure is attributed to Dk when the Model with the measured switches reproduces the observation and switch k is
    needed for that (without it the Model no longer reproduces it).  Nothing is attributed when the Model does not
    reproduce the observation, or when a direct clause other than the ledger/run comparison fails for another reason. *)
 Definition lcase_attrib (cfg : deviations) (c : lcase) : list nat :=
   if lcase_model_ok cfg c then
-    filter (fun k => switch_on k cfg && negb (lcase_model_ok (without k cfg) c)) [16%nat; 90%nat; 91%nat]
+    filter (fun k => switch_on k cfg && negb (lcase_model_ok (without k cfg) c)) [16%nat; 90%nat; 91%nat; 21%nat]
   else [].
 
 (* ---- replay explanation: the model's projection after every step ------------------------------ *)
-Fixpoint explain_steps (cfg : deviations) (ents evs : list N) (W : world) (sts : list lstep) :=
+Fixpoint explain_steps (cfg : deviations) (ents evs svcs : list N) (W : world) (sts : list lstep) :=
   match sts with
   | [] => []
   | s :: r =>
       let W' := run_ops cfg (st_ops s) W in
       let L := w_led W' in
-      (obs_matches ents evs W' (length (w_log W)) (st_obs s),
+      (obs_matches ents evs svcs W' (length (w_log W)) (st_obs s),
        (proj_state ents L, proj_count evs (l_event L), proj_count evs (l_bus L)),
-       (N.of_nat (length (l_tasks L)), l_svc L, proj_runs (skipn (length (w_log W)) (w_log W'))))
-      :: explain_steps cfg ents evs W' r
+       (N.of_nat (length (l_tasks L)), proj_svc svcs W', proj_runs (skipn (length (w_log W)) (w_log W'))))
+      :: explain_steps cfg ents evs svcs W' r
   end.
-Definition lcase_explain (cfg : deviations) (c : lcase) := explain_steps cfg (lc_ents c) (lc_evs c) world0 (lc_steps c).
+Definition lcase_explain (cfg : deviations) (c : lcase) := explain_steps cfg (lc_ents c) (lc_evs c) (lc_svcs c) world0 (lc_steps c).
